@@ -77,6 +77,18 @@ var key31Addr = func() string {
 
 const garbageAddr = "not-an-address-!!0OIl"
 
+// checksummedAddr builds an address with a valid checksum over version 0x00 and a key of n bytes.
+func checksummedAddr(n int) string {
+	vers := append([]byte{0x00}, filler(n, 0x21)...)
+	a := sha256.Sum256(vers)
+	b := sha256.Sum256(a[:])
+	return string(serializer.Base58Encode(append(vers, b[:4]...)))
+}
+
+// addresses at the decoder's length boundaries: base58 strings that decode to 1, 4 and 5 bytes (a leading '1' is a
+// zero byte), and checksummed addresses over a key of 0 and of 33 bytes
+var shortAddrs = map[string]string{"dec1": "1", "dec4": "1111", "dec5": "11111", "key0": checksummedAddr(0), "key33": checksummedAddr(33)}
+
 func addrOf(tok string, valid *world.Actor) string {
 	switch tok {
 	case "empty", "-":
@@ -89,6 +101,9 @@ func addrOf(tok string, valid *world.Actor) string {
 		return key31Addr
 	case "self":
 		return world.Cast("G").Addr
+	}
+	if a, ok := shortAddrs[tok]; ok {
+		return a
 	}
 	panic("c15: address token " + tok)
 }
